@@ -306,6 +306,7 @@ func (t *StreamUnderlay) onOpenSessionRequest(seg *segment) error {
 	if !t.deliverSegmentToSession(session, seg) {
 		return fmt.Errorf("failed to deliver open session request for session %d", sessionID)
 	}
+	session.waitFirstInput(t.done)
 	select {
 	case t.readySessions <- session:
 	case <-t.done:
